@@ -41,7 +41,7 @@ PROPS = {
     },
     "C14": {
         "level": "exploration",
-        "units": [U("pure", "TestC14", q(150000), q(1500000, 8))],
+        "units": [U("pure", "TestC14", q(150000), q(1500000, 8)), U("pure", "TestC14Seq", q(30000), q(300000, 4))],
         "assumptions": [RAPID, "stays where dividend * priority < 2^53 (exactly representable products), as the property states", "Rate tolerance n/2 + n*2^-16 against exact rationals"],
     },
     "C18": {
